@@ -20,7 +20,8 @@ enum rt_opkind {
 	OP_SEMP, OP_SEMPD, OP_SEMV,         /* semaphore calls as single steps (L1/L2) */
 	OP_REGION,                          /* other atomic region entry (named) */
 	OP_LOCK, OP_UNLOCK,                 /* ideal-lock operations (L2) */
-	OP_EXIT                             /* thread exit (waiter destructor) */
+	OP_EXIT,                            /* thread exit (waiter destructor) */
+	OP_PLAIN                            /* plain access to shared memory, a step only when rt_plain_steps is set */
 };
 
 enum rt_state { F_FREE = 0, F_PARKED, F_BLOCKED, F_DONE };
@@ -124,4 +125,6 @@ int rt_blocked_woken (int t);
 extern FILE *rt_log;                       /* if non-NULL each granted step is appended as one JSON line by the harness */
 const char *rt_kind_name (int kind);
 void rt_touch (const void *addr, int is_write);
+extern int rt_plain_steps;                 /* 1 (VERIF_PLAIN): plain accesses to heap objects and to other threads' stacks are scheduling points too,
+                                              so that code whose plain accesses race is explored at their granularity */
 #endif
